@@ -5,14 +5,14 @@ LEVEL_TEXT = ("The real sodium_malloc / sodium_free / sodium_mprotect_* / sodium
               "range-checked munmap): layout, guard pages, canary, fill pattern, protection transitions in any order, "
               "canary-violation termination and clean free are decided for every size 0..3 pages+1 at each page size.")
 TRUSTED = ["CBMC 6.11 pointer model (uintptr_t masking inside one object)", "OS model in harness/C17/malloc.c; the kernel faults on PROT_NONE access and honours mprotect"]
-ASSUMPTIONS = ["page size in {32, 64, 4096}", "size <= 3 pages + 1 for the layout obligations", "allocarray: count from an enumerated list"]
+ASSUMPTIONS = ["page size in {32, 64, 256}", "size <= 3 pages + 1 for the layout obligations", "allocarray: count from an enumerated list"]
 OUTSIDE = ["mlock effects", "Windows / non-mmap builds", "sizes > 3 pages + 1 (layout arithmetic is the same page-rounding formula)"]
 STUBS = ["rng.c", "misuse.c", "libc.c"]
 
 
 def obligations(tier):
     obs = []
-    for P in (64, 32, 4096):
+    for P in (64, 32, 256):
         obs.append(Ob("malloc-layout-P%d" % P, "C17/malloc.c", stubs=STUBS, defs={"P": P, "MODE": 0}, unwind=20,
                       timeout=1200, mem=8, tier="quick" if P == 64 else "thorough", replay="model", family="guarded-malloc",
                       desc="sodium_malloc layout/guards/canary/fill; mprotect_* in any order (3 symbolic ops); free from any state; altered canary => termination",
